@@ -25,7 +25,8 @@ from harness.common import Driver, Result, err_class
 LEVEL = "proof"
 TRUSTED_BASE = [
     "Lean 4.33 kernel; theorems of Properties/C08 (graph->generators for every n; CZ-on-|+..+> builds the graph generators; soundness of the conversion validator; "
-    "soundness of the modelled state_to_graph / stabilizer_to_graph for every input and every candidate GF(2) inverse; round trip on graph states)",
+    "soundness of the modelled state_to_graph / stabilizer_to_graph for every input and every candidate GF(2) inverse; completeness (the modelled state_to_graph "
+    "returns on every stabilizer state, n >= 1, with exact GF(2) inverses: state_to_graph_complete / state_to_graph_correct); round trip on graph states)",
     "correspondence of Model/StateToGraph.lean with state_rep_conversion.py: exact comparison (graph, gate list, error class) on every generated input — testing, not proof",
     "the floating-point parts of the density-matrix side (negativity-based edge detection, density matrices) are compared numerically per input, not proved",
     "harness dense reference (n <= 5) and independent signed-group canonicaliser",
